@@ -13,6 +13,14 @@ NOTE = ('Trusted base: rustc nightly MIR/HIR of the type-checked program at -Zmi
         'check, not a proof of the behavioural property; see coverage.not_decided in the evidence.')
 
 CLAIMS = {
+    'C19': dict(
+        technique='cast inventory and panic-site inventory over the MIR of the parser and CLI-conversion shim crates; Option '
+                  'result-discipline for the repo\'s fallible parsers; field-flow coverage source->destination of transform_to; '
+                  'HIR/ADT table agreement (builtin order vs segment indices, sorted key order vs DynamicParams field order)',
+        text='Decides which conversions are lossy, which malformed inputs crash instead of returning Err, that no fallible parse '
+             'result is swallowed, that no parsed field is dropped or invented by the conversion, and the three order tables. '
+             'Regex semantics (which lines are selected) and main.rs are not decided.',
+        ref='4 C19'),
     'C18': dict(
         technique='panic-site inventory over the MIR of everything reachable from verify / config validation / public-input '
                   'validation (Assert terminators, diverging callees, catalogued partial APIs) with automatic dominating-guard '
